@@ -1111,6 +1111,37 @@ fn eval0(g: &G, pos: usize, env: Env, w: &mut World) -> R {
                 }
             }
         }
+        CtxIter(kind, a, item, sink) => {
+            struct CtxIt<'g> {
+                kind: u8,
+                a: &'g G,
+                item: &'g G,
+                env: Env,
+                inner: Option<(Env, Bounds)>,
+            }
+            impl<'g> ItM for CtxIt<'g> {
+                fn make(&mut self, p: &mut usize, w: &mut World) -> Result<(), ()> {
+                    // make_iter runs the provider; its output is the context of every item
+                    let (e, v) = eval(self.a, *p, self.env, w).ok_or(())?;
+                    *p = e;
+                    let cx = ctx_of(&v);
+                    let n = count_of(cx) as u8;
+                    let bd = match self.kind % 3 {
+                        0 => Bounds::STAR,
+                        1 => Bounds::new(0, Some(n)),
+                        _ => Bounds::new(n, Some(n)),
+                    };
+                    self.inner = Some((self.env.with_ctx(cx), bd));
+                    Ok(())
+                }
+                fn next(&mut self, n: usize, p: &mut usize, w: &mut World) -> Result<Option<Val>, ()> {
+                    let (env, bd) = self.inner.expect("model: next before make_iter");
+                    rep_next(self.item, &bd, n, p, env, w)
+                }
+            }
+            let mut it = CtxIt { kind: *kind, a, item, env, inner: None };
+            run_sink(sink, pos, env, w, &mut it)
+        }
         IterChain(parts, sink) => {
             let mut ch = Chain { parts, env, idx: 0, cnt: 0, items: vec![] };
             run_sink(sink, pos, env, w, &mut ch)
